@@ -1,1 +1,55 @@
-From QH Require Import Bytes SocketM SockSpec.
+(* Properties_C04.v — C04: a malformed request gets one 400 and is never routed, however it arrives. *)
+From Coq Require Import String List ZArith.
+From QH Require Import Bytes Parser HeaderMap SocketM SockProofs BytesProofs C02Proofs C04Proofs.
+Import ListNotations.
+Local Open Scope Z_scope.
+
+(* whatever the segmentation, the head that is judged is the one before the first blank line of
+   the whole stream (C02_split_head_stable), nothing happens before it is complete
+   (C02_quiet_before_head), and the completing segment produces exactly: the 400 head, its
+   page, the close - with no headersParsed (hence no routing: routing is the slot on it) *)
+Theorem C04_reject_response : forall e p s head rest,
+  fresh s -> split_head (rbuf s ++ tcp_in s) = Some (head, rest) -> rejected e head ->
+  let r := on_ready_read e p s in
+  snd r = [ETx (head400 e); ETx (page400 e); EClose] /\ tcp_open (fst r) = false /\ rst (fst r) = RFinished.
+Proof. exact reject_response. Qed.
+Print Assumptions C04_reject_response.
+
+(* the 400 is well-formed: status line, Content-Length = length of the page, Content-Type, blank line *)
+Theorem C04_response_shape : forall e,
+  head400 e =
+  (B "HTTP/1.0 " ++ number 400 ++ [SP] ++ B "BAD REQUEST" ++ CRLF) ++
+  (B "Content-Length" ++ B ": " ++ number (blen (page400 e)) ++ CRLF) ++
+  (B "Content-Type" ++ B ": " ++ B "text/html" ++ CRLF) ++ CRLF.
+Proof. exact head400_content_length. Qed.
+Print Assumptions C04_response_shape.
+
+(* afterwards, for every later schedule (trailing bytes incl. a valid second request, acks, peer
+   events, application calls) and every application: no further byte, no headersParsed *)
+Theorem C04_reject_absorbing : forall e p s ops k,
+  tcp_open s = false -> rst s = RFinished ->
+  no_tx (snd (run_ops_from e p k s ops)) /\ hdr_count (snd (run_ops_from e p k s ops)) = 0%nat.
+Proof. exact reject_absorbing. Qed.
+Print Assumptions C04_reject_absorbing.
+
+(* "even when the bytes were already buffered before the HTTP socket object was created":
+   construction only arms a deferred call; the buffered bytes are processed by the same
+   handler on the next event-loop turn (or together with the next segment) *)
+Theorem C04_construct_defers : forall e p s,
+  constructed s = false ->
+  step e p s Construct = (set_tcp s true true (tcp_in s) (tcp_open s) (dev_open s), []) /\
+  (forall s', constructed s' = true -> pending_init s' = true ->
+     step e p s' Turn = on_ready_read e p (set_tcp s' (constructed s') false (tcp_in s') (tcp_open s') (dev_open s'))).
+Proof.
+  intros e p s Hc. split.
+  - cbn [step]. rewrite Hc. reflexivity.
+  - intros s' H1 H2. cbn [step]. rewrite H1, H2. reflexivity.
+Qed.
+Print Assumptions C04_construct_defers.
+
+(* non-vacuity: a concrete rejected head *)
+Example C04_nonvacuous :
+  rejected {| version := B "1.0.1"; url_table := [] |} (B "BOGUS") /\
+  rejected {| version := B "1.0.1"; url_table := [] |} (B "GET / HTTP/1.2") /\
+  fresh init_sock.
+Proof. split; [left; reflexivity|split; [left; reflexivity|constructor; reflexivity]]. Qed.
